@@ -11,214 +11,9 @@ REPO = os.environ.get("SFA_REPO", "/repo")
 PROPS = ["C%02d" % i for i in range(1, 21)]
 
 
-class Rename(ast.NodeTransformer):
-    """rename the plain locals of every function (not parameters, not globals, not names bound in nested scopes)"""
-
-    def visit_FunctionDef(self, node):
-        self.generic_visit(node)
-        params = {a.arg for a in node.args.args + node.args.kwonlyargs + node.args.posonlyargs}
-        if node.args.vararg:
-            params.add(node.args.vararg.arg)
-        if node.args.kwarg:
-            params.add(node.args.kwarg.arg)
-        stored, banned = set(), set(params)
-        for sub in ast.walk(node):
-            if isinstance(sub, (ast.Global, ast.Nonlocal)):
-                banned.update(sub.names)
-            if isinstance(sub, (ast.FunctionDef, ast.Lambda)) and sub is not node:
-                a = sub.args
-                banned.update(x.arg for x in a.args + a.kwonlyargs + a.posonlyargs)
-                if a.vararg:
-                    banned.add(a.vararg.arg)
-                if a.kwarg:
-                    banned.add(a.kwarg.arg)
-                if isinstance(sub, ast.FunctionDef):
-                    banned.add(sub.name)
-            if isinstance(sub, ast.ClassDef):
-                banned.add(sub.name)
-            if isinstance(sub, (ast.Import, ast.ImportFrom)):
-                banned.update((al.asname or al.name).split(".")[0] for al in sub.names)
-            if isinstance(sub, ast.ExceptHandler) and sub.name:
-                banned.add(sub.name)
-        own = [s for s in ast.walk(node)]
-        for sub in own:
-            if isinstance(sub, ast.Name) and isinstance(sub.ctx, (ast.Store, ast.Del)):
-                stored.add(sub.id)
-        todo = {n for n in stored - banned if not n.startswith("__")}
-        for sub in ast.walk(node):
-            if isinstance(sub, ast.Name) and sub.id in todo:
-                sub.id = sub.id + "_rn"
-        return node
-
-
-class FlipIf(ast.NodeTransformer):
-    """if c: A else: B  ->  if not c: B else: A   (only when both branches exist and it is not an elif chain)"""
-
-    def visit_If(self, node):
-        self.generic_visit(node)
-        if node.orelse and not (len(node.orelse) == 1 and isinstance(node.orelse[0], ast.If)):
-            node.test = ast.UnaryOp(op=ast.Not(), operand=node.test)
-            node.body, node.orelse = node.orelse, node.body
-        return node
-
-
-class Noop(ast.NodeTransformer):
-    """a harmless local statement at the start of every function and after every assignment"""
-
-    def visit_FunctionDef(self, node):
-        self.generic_visit(node)
-        k = 1 if (node.body and isinstance(node.body[0], ast.Expr) and isinstance(getattr(node.body[0], "value", None), ast.Constant)) else 0
-        node.body.insert(k, ast.parse("_dbg = None").body[0])
-        return node
-
-
-class Reorder(ast.NodeTransformer):
-    """reverse the order of the methods of every class that defines no class-level statements depending on order"""
-
-    def visit_ClassDef(self, node):
-        self.generic_visit(node)
-        idx = [i for i, s in enumerate(node.body) if isinstance(s, ast.FunctionDef) and not s.decorator_list]
-        funcs = [node.body[i] for i in idx][::-1]
-        for i, f in zip(idx, funcs):
-            node.body[i] = f
-        return node
-
-
-class TmpVar(ast.NodeTransformer):
-    """return <expr>  ->  _ret = <expr>; return _ret"""
-
-    def _blk(self, body):
-        out = []
-        for s in body:
-            if isinstance(s, ast.Return) and s.value is not None and not isinstance(s.value, (ast.Name, ast.Constant)):
-                out.append(ast.Assign(targets=[ast.Name(id="_ret", ctx=ast.Store())], value=s.value, lineno=s.lineno))
-                out.append(ast.Return(value=ast.Name(id="_ret", ctx=ast.Load())))
-            else:
-                out.append(s)
-        return out
-
-    def generic_visit(self, node):
-        super().generic_visit(node)
-        for f in ("body", "orelse", "finalbody"):
-            b = getattr(node, f, None)
-            if isinstance(b, list) and b and isinstance(b[0], ast.stmt):
-                setattr(node, f, self._blk(b))
-        return node
-
-
-class Elseify(ast.NodeTransformer):
-    """if c: ...return/raise;  rest   ->   if c: ...return/raise  else: rest      (pylint's no-else-return, reversed)"""
-
-    def _blk(self, body):
-        for i, st in enumerate(body):
-            if isinstance(st, ast.If) and not st.orelse and st.body and isinstance(st.body[-1], (ast.Return, ast.Raise)) \
-                    and i + 1 < len(body):
-                st.orelse = self._blk(body[i + 1:])
-                return body[:i + 1]
-        return body
-
-    def generic_visit(self, node):
-        super().generic_visit(node)
-        for f in ("body", "orelse", "finalbody"):
-            b = getattr(node, f, None)
-            if isinstance(b, list) and b and isinstance(b[0], ast.stmt) and not isinstance(node, (ast.For, ast.While)):
-                setattr(node, f, self._blk(b))
-        return node
-
-
-class DeElse(ast.NodeTransformer):
-    """if c: ...return/raise  else: rest   ->   if c: ...return/raise;  rest      (pylint's no-else-return)"""
-
-    def _blk(self, body):
-        out = []
-        for st in body:
-            out.append(st)
-            if isinstance(st, ast.If) and st.orelse and st.body and isinstance(st.body[-1], (ast.Return, ast.Raise)) and \
-                    not (len(st.orelse) == 1 and isinstance(st.orelse[0], ast.If) and False):
-                rest = st.orelse
-                st.orelse = []
-                out.extend(self._blk(rest))
-        return out
-
-    def generic_visit(self, node):
-        super().generic_visit(node)
-        for f in ("body", "orelse", "finalbody"):
-            b = getattr(node, f, None)
-            if isinstance(b, list) and b and isinstance(b[0], ast.stmt):
-                setattr(node, f, self._blk(b))
-        return node
-
-
-class CmpSwap(ast.NodeTransformer):
-    """a == b -> b == a,  a != b -> b != a,  a < b -> b > a ...   (single comparisons of side-effect-free operands)"""
-    M = {ast.Eq: ast.Eq, ast.NotEq: ast.NotEq, ast.Lt: ast.Gt, ast.Gt: ast.Lt, ast.LtE: ast.GtE, ast.GtE: ast.LtE}
-
-    def visit_Compare(self, node):
-        self.generic_visit(node)
-        if len(node.ops) == 1 and type(node.ops[0]) in self.M and not any(isinstance(x, ast.Call) for x in ast.walk(node)):
-            return ast.Compare(left=node.comparators[0], ops=[self.M[type(node.ops[0])]()], comparators=[node.left])
-        return node
-
-
-class TmpArgs(ast.NodeTransformer):
-    """f(g(x), y)  ->  _a0 = g(x); f(_a0, y)   for call-valued positional arguments of calls that are a whole statement
-    (expression statement or the value of a plain assignment); evaluation order is preserved"""
-
-    def _blk(self, body):
-        out = []
-        for st in body:
-            call = None
-            if isinstance(st, ast.Expr) and isinstance(st.value, ast.Call):
-                call = st.value
-            elif isinstance(st, ast.Assign) and isinstance(st.value, ast.Call):
-                call = st.value
-            if call is not None and not any(isinstance(a, ast.Starred) for a in call.args):
-                # the callee expression is evaluated first: only plain names / attribute chains of names are safe
-                fn = call.func
-                while isinstance(fn, ast.Attribute):
-                    fn = fn.value
-                if isinstance(fn, ast.Name):
-                    k = 0
-                    for i, a in enumerate(call.args):
-                        if isinstance(a, (ast.Call, ast.BinOp)) and not any(isinstance(x, (ast.Lambda, ast.Yield, ast.Await, ast.NamedExpr)) for x in ast.walk(a)):
-                            nm = f"_a{k}"
-                            k += 1
-                            out.append(ast.Assign(targets=[ast.Name(id=nm, ctx=ast.Store())], value=a, lineno=st.lineno))
-                            call.args[i] = ast.Name(id=nm, ctx=ast.Load())
-                        elif not isinstance(a, (ast.Name, ast.Constant, ast.Attribute)):
-                            break  # a later argument must not be evaluated before this one
-            out.append(st)
-        return out
-
-    def generic_visit(self, node):
-        super().generic_visit(node)
-        for f in ("body", "orelse", "finalbody"):
-            b = getattr(node, f, None)
-            if isinstance(b, list) and b and isinstance(b[0], ast.stmt):
-                setattr(node, f, self._blk(b))
-        return node
-
-
-T = {"unparse": None, "rename": Rename, "flipif": FlipIf, "noop": Noop, "reorder": Reorder, "tmpvar": TmpVar, "elseify": Elseify, "deelse": DeElse, "cmpswap": CmpSwap, "tmpargs": TmpArgs}
-
-
-def transform(root, name):
-    n = 0
-    for dp, _, fs in os.walk(os.path.join(root, "strawberryfields")):
-        for f in fs:
-            if not f.endswith(".py"):
-                continue
-            p = os.path.join(dp, f)
-            src = open(p).read()
-            tree = ast.parse(src)
-            if T[name] is not None:
-                tree = T[name]().visit(tree)
-                ast.fix_missing_locations(tree)
-            out = ast.unparse(tree)
-            ast.parse(out)
-            open(p, "w").write(out + "\n")
-            n += 1
-    return n
+import sys
+sys.path.insert(0, V)
+from sfa.metamorph import T, transform  # noqa: E402
 
 
 def run(prop, root, evd):
